@@ -2,7 +2,7 @@
      s_avail s + served s = c_max (s_cfg s)
    on every state of every trace. *)
 From Coq Require Import List NArith Bool Lia Arith.
-From JV Require Import Model.ConnGuard.
+From JV Require Import Gen.ConnGuardGen Model.ConnGuard.
 Import ListNotations.
 Local Open Scope N_scope.
 Arguments N.add : simpl never.
@@ -63,14 +63,16 @@ Qed.
 (* case analysis of `step` shared by most proofs: afterwards every goal mentions either s itself, an Acquire
    result, or `keep s i f` / `release s i f` with the phase of the touched attempt known *)
 Ltac step_cases s a :=
-  destruct a as [k | i | i | i | i | i ok | i | i]; unfold step;
+  destruct a as [k | i | i | i | i | i ok | i | i c0 | i | i]; unfold step;
   [ destruct (N.eqb_spec (s_avail s) 0)
   | destruct (get s i) as [x|] eqn:G; [destruct (a_phase x) eqn:P; try (destruct (c_ws (s_cfg s) && is_upgrade (a_kind x)); [destruct (a_kind x) eqn:K | destruct (c_http (s_cfg s) && negb (is_upgrade (a_kind x)))]) |]
   | destruct (get s i) as [x|] eqn:G; [destruct (a_phase x) eqn:P; destruct (a_kind x) eqn:K |]
   | destruct (get s i) as [x|] eqn:G; [destruct (a_phase x) eqn:P |]
   | destruct (get s i) as [x|] eqn:G; [destruct (a_phase x) eqn:P |]
   | destruct (get s i) as [x|] eqn:G; [destruct (a_phase x) eqn:P; try destruct ok |]
+  | destruct (get s i) as [x|] eqn:G; [destruct (a_phase x) eqn:P; destruct (N.eqb_spec (a_pending x) 0) as [Z|Z] |]
   | destruct (get s i) as [x|] eqn:G; [destruct (a_phase x) eqn:P |]
+  | destruct (get s i) as [x|] eqn:G; [destruct (a_phase x) as [| | | | c1 |] eqn:P; try destruct (shutdown_blocked c1 x) |]
   | destruct (get s i) as [x|] eqn:G; [destruct (a_phase x) eqn:P |] ].
 
 Lemma step_cfg : forall s a, s_cfg (step s a) = s_cfg s.
@@ -163,7 +165,7 @@ Qed.
 
 (* what a refused attempt looks like, in any reachable state *)
 Definition refused_ok (s : state) : Prop :=
-  forall i x, get s i = Some x -> a_status x = status_refused -> a_phase x = PDone /\ a_handlers x = 0.
+  forall i x, get s i = Some x -> a_status x = status_refused -> a_phase x = PDone /\ a_handlers x = 0 /\ a_pending x = 0.
 
 Lemma get_keep : forall s i f j, get (keep s i f) j = if Nat.eqb i j then option_map f (get s i) else get s j.
 Proof.
@@ -194,7 +196,7 @@ Lemma step_refused_ok : forall s a, refused_ok s -> refused_ok (step s a).
 Proof.
   intros s a R. unfold refused_ok in *.
   step_cases s a; try exact R; intros j y Gy Sy;
-    try (upd_goal G P; [ cbn in Sy |- *; try discriminate Sy; try (destruct (a_kind x); discriminate Sy); try (destruct (R _ _ G Sy) as [Q _]; congruence) | eauto ]).
+    try (upd_goal G P; [ cbn in Sy |- *; try discriminate Sy; try (destruct (a_kind x); discriminate Sy); try (destruct (R _ _ G Sy) as (Q & _ & Q2); congruence) | eauto ]).
   - unfold get in Gy; cbn in Gy. apply get_acquire in Gy as [Gy | [_ ->]]; [eauto | cbn; auto].
   - unfold get in Gy; cbn in Gy. apply get_acquire in Gy as [Gy | [_ ->]]; [eauto | cbn in Sy; discriminate].
 Qed.
@@ -235,12 +237,12 @@ Lemma refused_no_handler : forall c tr i, refused (run c tr) i = true ->
   handlers_of (run c tr) i = 0 /\ holds (run c tr) i = false /\ forall n, holds (run c (firstn n tr)) i = false.
 Proof.
   intros c tr i R. unfold refused in R. destruct (get (run c tr) i) as [x|] eqn:G; [| discriminate].
-  apply N.eqb_eq in R. destruct (run_refused_ok c tr i x G R) as [P H].
+  apply N.eqb_eq in R. destruct (run_refused_ok c tr i x G R) as (P & H & _).
   unfold handlers_of, holds. rewrite G, P. repeat split; auto.
   intro n. unfold holds. destruct (get (run c (firstn n tr)) i) as [y|] eqn:Gy; [| reflexivity].
   destruct (holding (a_phase y)) eqn:Hy; [exfalso | reflexivity].
   assert (Sy : a_status y <> status_refused).
-  { intro E. destruct (run_refused_ok c (firstn n tr) i y Gy E) as [Q _]. rewrite Q in Hy. discriminate. }
+  { intro E. destruct (run_refused_ok c (firstn n tr) i y Gy E) as (Q & _). rewrite Q in Hy. discriminate. }
   destruct (run_from_status_stable (skipn n tr) _ i y Gy Sy) as (z & Gz & Sz).
   unfold run in *. rewrite <- run_from_app, firstn_skipn in Gz. rewrite G in Gz. injection Gz as <-. contradiction.
 Qed.
@@ -258,7 +260,7 @@ Proof.
   unfold all_terminated in T. rewrite (terminated_served0 _ T) in I. lia.
 Qed.
 
-Definition fresh (k : kind) : attempt := {| a_kind := k; a_phase := PCall; a_status := 0; a_handlers := 0 |}.
+Definition fresh (k : kind) : attempt := {| a_kind := k; a_phase := PCall; a_status := 0; a_handlers := 0; a_pending := 0 |}.
 
 Lemma acquire_many : forall ks s, N.of_nat (length ks) <= s_avail s ->
   s_avail (run_from s (map Acquire ks)) = s_avail s - N.of_nat (length ks) /\
@@ -309,22 +311,24 @@ Proof.
   revert H2.
   step_cases s a; try (rewrite G0, H1; discriminate); try reflexivity;
     try (rewrite get_keep; match goal with |- context [Nat.eqb ?i j] => destruct (Nat.eqb_spec i j) as [->|] end;
-         [ rewrite G; cbn; try rewrite P; discriminate | rewrite G0, H1; discriminate ]).
+         [ rewrite G; cbn; first [ try rewrite P; discriminate | rewrite G0 in G; injection G as <-; rewrite H1; discriminate ]
+         | rewrite G0, H1; discriminate ]).
   - unfold get; cbn. rewrite nth_error_app1 by exact L. unfold get in G0. rewrite G0, H1. discriminate.
   - unfold get; cbn. rewrite nth_error_app1 by exact L. unfold get in G0. rewrite G0, H1. discriminate.
 Qed.
 
 (* ---------- no phase is a trap ---------- *)
 (* from any state, these five actions end attempt i whatever phase it is in *)
-Definition finish_acts (i : nat) : list act := [Dispatch i; DropFut i; Upgrade i false; WsEnd i; WsFinish i].
+Definition finish_acts (i : nat) : list act := [Dispatch i; DropFut i; Upgrade i false; WsEnd i CError; WsPeerGone i].
 
+(* the actions used below (the ones that move the permit without a side condition) *)
 Definition target (a : act) : option nat :=
   match a with
-  | Acquire _ => None
-  | Dispatch i | Handler i | Respond i | DropFut i | Upgrade i _ | WsEnd i | WsFinish i => Some i
+  | Dispatch i | Respond i | DropFut i | Upgrade i _ | WsEnd i _ | WsPeerGone i => Some i
+  | _ => None
   end.
 
-(* the phase of the targeted attempt after one action *)
+(* the phase of the targeted attempt after one such action *)
 Definition after (c : cfg) (k : kind) (a : act) (p : phase) : phase :=
   match a, p with
   | Dispatch _, PCall =>
@@ -333,8 +337,8 @@ Definition after (c : cfg) (k : kind) (a : act) (p : phase) : phase :=
   | Respond _, PHttp => PDone
   | DropFut _, PHttp => PDone
   | Upgrade _ ok, PWsPending => if ok then PWsSession else PDone
-  | WsEnd _, PWsSession => PWsClosing
-  | WsFinish _, PWsClosing => PDone
+  | WsEnd _ c', PWsSession => PWsClosing c'
+  | WsPeerGone _, PWsClosing _ => PDone
   | _, p => p
   end.
 
@@ -347,19 +351,13 @@ Lemma step_at : forall s a i x, target a = Some i -> get s i = Some x ->
   exists y, get (step s a) i = Some y /\ a_kind y = a_kind x /\ a_phase y = after (s_cfg s) (a_kind x) a (a_phase x).
 Proof.
   intros s a i x T G.
-  destruct a as [k | j | j | j | j | j ok | j | j]; cbn in T; try discriminate; injection T as ->;
-    unfold step; rewrite G; destruct x as [k p st h]; cbn [a_phase a_kind after];
-    destruct p; try (eexists; split; [exact G | split; reflexivity]).
+  destruct a as [k | j | j | j | j | j ok | j | j c0 | j | j]; cbn in T; try discriminate; injection T as ->;
+    unfold step; rewrite G; destruct x as [k p st h pe]; cbn [a_phase a_kind after];
+    destruct p; try (eexists; split; [exact G | split; reflexivity]);
+    try (eexists; split; [first [apply get_keep_same | apply get_release_same]; exact G | split; reflexivity]).
   - destruct (c_ws (s_cfg s)), (c_http (s_cfg s)), k; cbn [andb negb is_upgrade];
       (eexists; split; [first [apply get_keep_same | apply get_release_same]; exact G | split; reflexivity]).
-  - destruct k; first [eexists; split; [exact G | split; reflexivity]
-                      | eexists; split; [apply get_keep_same; exact G | split; reflexivity]].
-  - destruct k; eexists; (split; [apply get_keep_same; exact G | split; reflexivity]).
-  - eexists; split; [apply get_release_same; exact G | split; reflexivity].
-  - eexists; split; [apply get_release_same; exact G | split; reflexivity].
   - destruct ok; eexists; (split; [first [apply get_keep_same | apply get_release_same]; exact G | split; reflexivity]).
-  - eexists; split; [apply get_keep_same; exact G | split; reflexivity].
-  - eexists; split; [apply get_release_same; exact G | split; reflexivity].
 Qed.
 
 Lemma step_none : forall s a i, target a = Some i -> get s i = None -> step s a = s.
@@ -374,11 +372,47 @@ Proof.
   - destruct (step_at s (Dispatch i) i x eq_refl G) as (x1 & G1 & K1 & P1).
     destruct (step_at _ (DropFut i) i x1 eq_refl G1) as (x2 & G2 & K2 & P2).
     destruct (step_at _ (Upgrade i false) i x2 eq_refl G2) as (x3 & G3 & K3 & P3).
-    destruct (step_at _ (WsEnd i) i x3 eq_refl G3) as (x4 & G4 & K4 & P4).
-    destruct (step_at _ (WsFinish i) i x4 eq_refl G4) as (x5 & G5 & K5 & P5).
+    destruct (step_at _ (WsEnd i CError) i x3 eq_refl G3) as (x4 & G4 & K4 & P4).
+    destruct (step_at _ (WsPeerGone i) i x4 eq_refl G4) as (x5 & G5 & K5 & P5).
     unfold holds. rewrite G5, P5, P4, P3, P2, P1, K4, K3, K2, K1. rewrite !step_cfg.
     unfold after. destruct (a_phase x), (a_kind x), (c_ws (s_cfg s)), (c_http (s_cfg s)); reflexivity.
   - rewrite (step_none s (Dispatch i) i eq_refl G), (step_none s (DropFut i) i eq_refl G),
-      (step_none s (Upgrade i false) i eq_refl G), (step_none s (WsEnd i) i eq_refl G), (step_none s (WsFinish i) i eq_refl G).
+      (step_none s (Upgrade i false) i eq_refl G), (step_none s (WsEnd i CError) i eq_refl G), (step_none s (WsPeerGone i) i eq_refl G).
     unfold holds. now rewrite G.
+Qed.
+
+(* ---------- a session closed by anything but a server stop gives its slot back whatever its handlers do ---------- *)
+Lemma not_blocked_unless_stopped : forall c x, c <> CStopped -> shutdown_blocked c x = false.
+Proof. intros c x H. unfold shutdown_blocked, gen_waits_for_pending. destruct c; try reflexivity. contradiction. Qed.
+
+Lemma server_close_frees_slot : forall s i x c, get s i = Some x -> a_phase x = PWsSession -> c <> CStopped ->
+  let s' := run_from s [WsEnd i c; WsFinish i] in holds s' i = false /\ s_avail s' = s_avail s + 1.
+Proof.
+  intros s i x c G P H. cbn [run_from fold_left].
+  assert (E1 : step s (WsEnd i c) = keep s i (set_phase (PWsClosing c))) by (unfold step; now rewrite G, P).
+  rewrite E1. pose proof (get_keep_same s i (set_phase (PWsClosing c)) x G) as G1.
+  assert (E2 : step (keep s i (set_phase (PWsClosing c))) (WsFinish i)
+               = release (keep s i (set_phase (PWsClosing c))) i (set_phase PDone)).
+  { unfold step. rewrite G1. cbn [a_phase set_phase]. now rewrite not_blocked_unless_stopped. }
+  rewrite E2. split.
+  - unfold holds. now rewrite (get_release_same _ _ _ _ G1).
+  - reflexivity.
+Qed.
+
+Lemma stop_waits_only_for_pending_calls : forall s i x, get s i = Some x -> a_phase x = PWsClosing CStopped ->
+  (a_pending x <> 0 -> step s (WsFinish i) = s) /\
+  (a_pending x = 0 -> holds (step s (WsFinish i)) i = false /\ s_avail (step s (WsFinish i)) = s_avail s + 1) /\
+  holds (step s (WsPeerGone i)) i = false /\ s_avail (step s (WsPeerGone i)) = s_avail s + 1.
+Proof.
+  intros s i x G P. repeat split.
+  - intro H. unfold step. rewrite G, P. unfold shutdown_blocked, gen_waits_for_pending. cbn.
+    destruct (N.eqb_spec (a_pending x) 0); [contradiction | reflexivity].
+  - unfold step. rewrite G, P.
+    replace (shutdown_blocked CStopped x) with false by (unfold shutdown_blocked; rewrite H; vm_compute; reflexivity).
+    unfold holds. now rewrite (get_release_same _ _ _ _ G).
+  - unfold step. rewrite G, P.
+    replace (shutdown_blocked CStopped x) with false by (unfold shutdown_blocked; rewrite H; vm_compute; reflexivity).
+    reflexivity.
+  - unfold step. rewrite G, P. unfold holds. now rewrite (get_release_same _ _ _ _ G).
+  - unfold step. now rewrite G, P.
 Qed.
